@@ -142,7 +142,12 @@ def idx (p : Par) : List (Nat × Nat) :=
 /-- group width: `levelP + 1`, `1` without `P` -/
 def gw (p : Par) : Nat := if p.nP = 0 then 1 else p.nP
 
-/-- Q-row indices of RNS digit `i`: `i·gw + k`, stopping at `levelQ` -/
+/-- Q-row indices of RNS digit `i`: `i·gw + k`, stopping at `levelQ`.  This is THE partition of the Q
+    primes into RNS digits, GREEDY: digits `0 … rnsSize−2` take `gw = levelP+1` consecutive primes, the last
+    digit what remains (`(4Q,3P)`: `{0,1,2},{3}`, not the balanced `{0,1},{2,3}`).  It is the one of
+    `AddPolyTimesGadgetVectorToGadgetCiphertext` (`index = i*(levelP+1)+k`, break at `levelQ+1`), of the
+    decomposition (`DecomposeSingleNTT`) and of `rgsw.AddLazy(*Plaintext)` (`start, end = i*nP, (i+1)*nP`);
+    `Proofs/RGSWShape.lean`: row `k` belongs to digit `k / gw` and to no other. -/
 def group (p : Par) (i : Nat) : List Nat :=
   ((List.range p.gw).map fun k => i * p.gw + k).filter fun x => x < p.qsQ.length
 
